@@ -920,8 +920,12 @@ func (h *seqHist) resolve(op *seqOp) (stop bool) {
 					op.Name, now, qnames[k], en.Ver, en.At, age, en.TTLs, minTTL(en.TTLs), reason)
 			}
 		}
-		if n[k] > 1 {
-			h.viol("refetch:more-than-one-query", "Resolve(%s) sent %d %s queries in one call", op.Name, n[k], qnames[k])
+		// The statement says when the upstream must and must not be asked, not how often one call may ask: a resolver
+		// may repeat a query that failed. More than a handful of queries for one key in one call is a storm, though.
+		if n[k] > 3 {
+			h.viol("refetch:query-storm", "Resolve(%s) sent %d %s queries in one call", op.Name, n[k], qnames[k])
+		} else if n[k] > 1 {
+			h.counts["seq_keys_asked_more_than_once_in_a_call"]++
 		}
 		if !fetched {
 			want[k] = verBad
